@@ -148,6 +148,74 @@ def _related(prog, a, b):
     return a == b or b in _ancestors(prog, a) or a in _ancestors(prog, b)
 
 
+UNLINKS = ('removeGroup', 'removeAllLinks', 'removeData', 'renameGroup')
+
+
+def _cache_coherent(prog, cls, member):
+    """a container member used as a lookup cache stays coherent only if every function of the class line that unlinks or renames
+    an object empties it (clear), or erases under a canonical key while every entry is stored under that same canonical key"""
+    from ..sem import Flow
+    sem = Sem(prog)
+    # the declaring class and the classes derived from it (the ones that can reach the member)
+    line = [c for c in prog.records if c.startswith('nix::hdf5::') and (c == cls or cls in _ancestors(prog, c))]
+    fills, erases, clears = [], [], []
+    users = []
+    for f in prog.funcs.values():
+        if f.body is None or f.cls not in line:
+            continue
+        for c in f.walk():
+            if c.k != 'call' or not c.c:
+                continue
+            o = unwrap(c.c[0])
+            if not (o.k == 'member' and o.decl.get('name') == member):
+                continue
+            nm = (c.callee or {}).get('name')
+            if nm in ('operator[]', 'emplace', 'insert', 'try_emplace', 'push_back', 'emplace_back', 'insert_or_assign'):
+                fills.append((f, c))
+            elif nm == 'erase':
+                erases.append((f, c))
+            elif nm == 'clear':
+                clears.append((f, c))
+    if not fills:
+        return True, 'never filled'
+
+    def canonical(f, node):
+        fl = Flow(sem, f)
+        org = fl.origins(node)
+        acc = set(o[1] for o in org if o[0] == 'call' and o[1] in ('id', 'name') and o[2].get('member'))
+        raw = set(o[1] for o in org if o[0] == 'param')
+        return acc, raw
+    fillkeys = []
+    for f, c in fills:
+        a = real_args(c)
+        if a:
+            fillkeys.append((f, canonical(f, a[0])))
+    unlinkers = []
+    for f in prog.funcs.values():
+        if f.body is None or f.cls not in line or f.kind in ('ctor', 'dtor'):
+            continue
+        if any((c.callee or {}).get('name') in UNLINKS for c in f.calls()):
+            unlinkers.append(f)
+    if not unlinkers:
+        return True, 'no function of %s unlinks or renames objects' % cls
+    one_key = len(set(frozenset(k[0]) for f, k in fillkeys)) == 1 and all(k[0] and not k[1] for f, k in fillkeys)
+    for u in sorted(unlinkers, key=lambda f: f.q):
+        if any(f is u for f, c in clears):
+            continue
+        er = [c for f, c in erases if f is u]
+        if er and one_key:
+            acc, raw = canonical(u, real_args(er[0])[0])
+            if acc and not raw and frozenset(acc) == frozenset(fillkeys[0][1][0]):
+                continue
+        filled_in = sorted(set(f.q.split('::')[-1] for f, c in fills))
+        if er:
+            return False, ('%s unlinks an object and erases only the key it was given, but entries are stored by %s under the caller\'s lookup string (name or id): '
+                           'the same object cached under its other key stays reachable after the delete and everything written through it is lost on close' % (u.q, '/'.join(filled_in)))
+        return False, ('%s unlinks or renames objects without emptying the table filled by %s: a later lookup answers from the stale entry '
+                       '(deleted entity still found / another entity returned for the id)' % (u.q, '/'.join(filled_in)))
+    return True, 'emptied or erased under its canonical key by every unlinking function (%s)' % ', '.join(sorted(u.q.split('::')[-1] for u in unlinkers))
+
+
 def _dom(f, a, b):
     def listed(n):
         x = n
@@ -161,13 +229,27 @@ def _dom(f, a, b):
 def run_handles_only(prog, rep):
     """backend entity classes hold only handles (no value cache that could diverge from the file)"""
     rule = rep.rule('R-NOCACHE', 'backend entity classes own only handle-typed members (no cached values)', floor=10)
-    ok_types = re.compile(r'(H5Group|optGroup|DataSet|shared_ptr<|Compression|FormatVersion|FileMode|ndsize_t|hid_t|weak_ptr<)')
+    HANDLE = re.compile(r'^(nix::hdf5::)?(H5Group|optGroup|DataSet)$|^std::(shared|weak)_ptr<.*>$|^(nix::)?(Compression|FormatVersion|FileMode|ndsize_t)$|^hid_t$')
+    CONTAINER = re.compile(r'^std::(unordered_)?(multi)?(map|set)<|^std::(vector|list|deque)<')
     for q, rec in sorted(prog.records.items()):
         if not q.startswith('nix::hdf5::') or not q.endswith('HDF5') or rec.get('abstract') and not rec['fields']:
             continue
-        bad = [f for f in rec['fields'] if not ok_types.search(f['type']) and not f.get('mutable')]
+        bad = []
+        caches = []
+        for f in rec['fields']:
+            ty = re.sub(r'^(mutable |const )+', '', f['type']).strip()
+            if HANDLE.match(ty):
+                continue
+            if CONTAINER.match(ty) or CONTAINER.match(f.get('ctype') or ''):
+                caches.append(f)
+            else:
+                bad.append(f)
         rule.check(not bad, '%s|members' % q, '%s:%s' % (prog.rel(rec['file']), rec['line']), q, 'members: %s' % [f['name'] for f in rec['fields']],
-                   'value-typed member(s) %s could cache file content' % [(f['name'], f['type']) for f in bad])
+                   'value-typed member(s) %s cache file content in the object' % [(f['name'], f['type']) for f in bad])
+        for f in caches:
+            ok, why = _cache_coherent(prog, q, f['name'])
+            rule.check(ok, '%s|cache|%s' % (q, f['name']), '%s:%s' % (prog.rel(rec['file']), rec['line']), q, 'lookup table %s: %s' % (f['name'], why),
+                       'lookup table %s (%s) can go stale: %s' % (f['name'], f['type'], why))
     # the one handle cache: optGroup. Either every access looks the container up again, or no cached container is ever unlinked.
     og = prog.fn('nix::hdf5::optGroup::operator()')
     sem = Sem(prog)
